@@ -213,7 +213,17 @@ def gen_special(rng, quick):
                              hci_delay=0.01, p1=dict(mtu=64, mps=24, credits=0), cidrel="diff", cids=[0x70, 0x6F, 0x6E, 0x6D, 0x6C],
                              grant=[{"policy": "batch", "batch": 2, "kick": 2, "kick_delay": 0.4}] * 5,
                              writes=[[[[0, 100], [1.0, 30]], [[0, 10]]], [[[0, 64]], []]] + [[[], []]] * 3))
-    # maximal MTU / MPS with writes of several MTUs
+    # bumble closes an idle channel while a sibling with other identifiers on the two sides keeps transferring in both
+    # directions over many credit rounds (credit routing is per channel identifier)
+    for role in ("server", "client"):
+        for rel in ("swap", "shift", "same", "diff"):
+            for nch in (2, 3):
+                idle = [[[], []]]
+                busy = [[[[0, 40], [1.0, 300], [2.0, 300]], [[0, 30], [1.5, 200], [2.5, 100]]]]
+                out.append(_base(rng, family="close-sibling", cls="close-sibling", role=role, mode="ecred", nch=nch, hci_delay=0.01,
+                                 p0=dict(mtu=64, mps=23, credits=2), p1=dict(mtu=64, mps=23, credits=2), cidrel=rel, cids=_cids(rng, rel, nch),
+                                 grant=[{"policy": "each"}] * 5, close=[{"ch": 0, "at": 0.5}],
+                                 writes=idle + busy * (nch - 1) + [[[], []]] * (5 - nch)))
     big = [(1021, 3, 2, 200000)] if quick else [(1021, 3, 2, 200000), (27, 1, 7, 140000), (251, 255, 1, 70000)]
     for acl, c0, c1, size in big:
         for role in ("server", "client"):
